@@ -187,4 +187,27 @@ def runHist : List Nat × List (List Tx) → List HStep → List Nat × List (Li
   | (wd, []), .rollback :: rest => runHist (wd, []) rest
   | (wd, b :: stack), .rollback :: rest => runHist (rollbackBlock wd b, stack) rest
 
+/-! ## the two inputs of the V0/V1 quorum that come from elsewhere -/
+
+/-- `Arbiters.GetCrossChainArbitersMajorityCount` of the real dpos state: `int(float64(count) * 2 / 3)` -/
+def realMajority (count : Nat) : Nat := count * 2 / 3
+
+/-- the matching loop of `crypto.VerifyMultisigSignatures`: a signature is `some k` (it verifies under key `k`
+    and no other) or `none` (verifies under no key); a signature matching no script key is skipped, a second
+    signature matching an already counted key is an error -/
+def matchSigs (keys : List Nat) : List (Option Nat) → List Nat → Option (List Nat)
+  | [], v => some v
+  | none :: r, v => matchSigs keys r v
+  | some k :: r, v =>
+    if keys.contains k then (if v.contains k then none else matchSigs keys r (k :: v)) else matchSigs keys r v
+
+/-- `crypto.VerifyMultisigSignatures m n keys signatures`: the counted signers on success -/
+def verifyMultisig (m n : Nat) (keys : List Nat) (sigs : List (Option Nat)) : Option (List Nat) :=
+  if keys.length ≠ n then none
+  else if sigs.length < m then none
+  else if sigs.length > n then none
+  else match matchSigs keys sigs [] with
+    | none => none
+    | some v => if v.length < m then none else some v
+
 end ElaVerif.Withdraw
